@@ -101,7 +101,9 @@ def _programs(seed: int, tier: str) -> dict[str, list[tuple]]:
             if any(x[0] == "text" and y[0] == "text" for x, y in zip(combo, combo[1:])):
                 continue
             c.append(tuple(combo))
-    return {"A": a, "B": b, "C": c}
+    # (D) nests whose inner block mixes blank and non-blank branches (blank-block suppression must look at all of them)
+    dd = [(("text", "A\n"), st, ("text", "\nZ")) for st in grammar.mixed_blank_nests(seed, tier == "quick")]
+    return {"A": a, "B": b, "C": c, "D": dd}
 
 
 def _setup(tier: str, seed: int) -> None:
@@ -144,7 +146,7 @@ def plan(tier: str, seed: int):
         total += len(items)
     meta = {
         "space_size": total,
-        "subspaces": {name: {"programs": len(items), "assignments": sum(_n_assignments(k) for _, k in items)} for name, items in _STATE["subs"].items()},
+        "subspaces": {name: {"programs": len(items), "assignments": sum(_n_assignments(k, name) for _, k in items)} for name, items in _STATE["subs"].items()},
         "bounds": {"full_cube_up_to_k": _STATE["kmax"], "deviations_beyond": _STATE["dev"], "configs": len(CONFIGS), "data_sets": 3},
     }
     return shards, meta
@@ -165,9 +167,12 @@ def _construct(prog: tuple) -> str:
     return st[0] + ("/" + st[1] if st[0] == "comment" else "") + ("[" + inner + "]" if inner else "")
 
 
-def _assignments(k: int):
-    """All 4^k assignments for k <= kmax; beyond that every assignment that deviates from all-none in <= dev positions."""
+def _assignments(k: int, name: str = "A"):
+    """All 4^k assignments for k <= kmax; beyond that every assignment that deviates from all-none in <= dev positions.
+    (The nests of sub-space D get one deviation in the quick tier: their subject is suppression, not trimming.)"""
     kmax, dev = _STATE["kmax"], _STATE["dev"]
+    if name == "D":
+        dev = max(1, dev - 1)
     if k <= kmax:
         yield from itertools.product(MARKS, repeat=k)
         return
@@ -180,8 +185,8 @@ def _assignments(k: int):
                 yield tuple(marks)
 
 
-def _n_assignments(k: int) -> int:
-    return sum(1 for _ in _assignments(k))
+def _n_assignments(k: int, name: str = "A") -> int:
+    return sum(1 for _ in _assignments(k, name))
 
 
 def check_program(name: str, prog: tuple, k: int, res: ShardResult | None, only: tuple | None = None) -> list[tuple[str, Any, Any, Any]]:
@@ -205,7 +210,7 @@ def check_program(name: str, prog: tuple, k: int, res: ShardResult | None, only:
             want = "".join(s[1] if s[0] in ("text", "raw") else "" for s in prog)
             if base[1] != want:
                 out.append((f"C18:literal-text-not-verbatim:{cons}", {"markers": [], "trim": "+", "suppress": False}, want, base[1]))
-        for marks in _assignments(k):
+        for marks in _assignments(k, name):
             if only is not None and tuple(only) != marks:
                 continue
             src = print_program(prog, Layout(markers=marks))
